@@ -16,12 +16,14 @@ mod conv;
 mod eval;
 mod pairs;
 mod pgen;
+mod stshapes;
 mod sx;
 mod vconv;
 mod vgen;
 mod vpairs;
 mod virev;
 mod vrun;
+mod vstshapes;
 mod vtxev;
 mod vval;
 
@@ -76,18 +78,20 @@ fn parse_text(text: &str) -> Result<rssl_ast::Module, String> {
 }
 
 fn arg_vectors(rng: &mut Rng, params: &[(u8, T)], n: usize) -> Vec<Vec<V>> {
-    let ints: [u32; 12] = [0, 1, 2, 3, 7, 31, 32, 0x7fff_ffff, 0x8000_0000, 0xffff_ffff, 0xffff_fff9, 1000];
     (0..n)
         .map(|k| {
+            // vector 1: every float parameter is a NaN (the same one: `a == a`, `a <= a`, `!(a < b)`), vector 2: distinct
+            // edge values; then mixed edge / random bits
             params
                 .iter()
                 .map(|(_, t)| {
-                    let raw = if k == 0 { 0 } else if rng.chance(2, 3) { *rng.pick(&ints) } else { rng.next() as u32 };
+                    let edge = k == 0 || rng.chance(2, 3);
+                    let r = rng.next() as u32;
                     match t {
-                        T::Bool => V::B(raw & 1 == 1),
-                        T::Int => V::I(raw),
-                        T::Uint => V::U(raw),
-                        T::Float => V::F(raw),
+                        T::Bool => V::B(k != 0 && r & 1 == 1),
+                        T::Int => V::I(if k == 0 { 0 } else if edge { *rng.pick(&INT_EDGES) } else { r }),
+                        T::Uint => V::U(if k == 0 { 0 } else if edge { *rng.pick(&INT_EDGES) } else { r }),
+                        T::Float => V::F(if k == 0 { 0 } else if k == 1 { 0x7fc0_0000 } else if edge { *rng.pick(&FLOAT_EDGES) } else { r }),
                         _ => V::Void,
                     }
                 })
@@ -371,6 +375,32 @@ fn run_program(src: &str, only: Option<(&str, &[Vec<V>])>, nvec: usize, rng: &mu
                 "generate-error".to_string()
             }
         };
+        // ---- statement attributes (hints without meaning; both evaluators ignore them): the exporter keeps every attribute
+        // on the same statement, in the same order
+        if let (Ok(Ok(mdx)), Ok(Ok(mvk))) = (&ast_dx, &ast_vk) {
+            let mut want = Vec::new();
+            if let Some(imp) = p.ir.function_registry.get_function_implementation(ir::FunctionId(*fid)).as_ref() {
+                ir_stmt_attrs(&imp.scope_block, &mut want);
+            }
+            for (flav, m) in [("dx", mdx), ("vk", mvk)] {
+                let mut got = Vec::new();
+                for rd in &m.root_definitions {
+                    if let rssl_ast::RootDefinition::Function(fd) = rd {
+                        if &fd.name.node == emitted {
+                            if let Some(b) = &fd.body {
+                                b.iter().for_each(|st| ast_stmt_attrs(st, &mut got));
+                            }
+                        }
+                    }
+                }
+                if !want.is_empty() {
+                    hist.add("fn:with-statement-attributes");
+                }
+                if got != want && fails.is_empty() {
+                    fails.push(format!("{}: statement attributes of {} differ: IR [{}] exported [{}]", flav, emitted, want.join(" "), got.join(" ")));
+                }
+            }
+        }
         // ---- oracle: emitted text, re-parsed, under C semantics == IR under typed semantics
         let mut skip_text = false;
         if fails.is_empty() && !unsupported && !refused_ok {
@@ -442,6 +472,94 @@ fn run_program(src: &str, only: Option<(&str, &[Vec<V>])>, nvec: usize, rng: &mu
     }
 }
 
+/// `C01.prim`: the concrete primitive interpretation (sx.rs) on edge values; the Lean model answers with its own
+/// (Driver/C01 `concretePrim`, bit-level IEEE in Model/Ieee.lean).  Oracle: the laws IEEE-754 does give — with a NaN operand
+/// only `!=` holds; otherwise exactly one of `<`, `==`, `>`, and `<=`, `>=`, `!=` follow; conversions: NaN -> 0, negative ->
+/// 0u, int -> float -> int is the identity up to 2^24, `(bool)x` is `x != 0`
+fn run_prim(kind: &str, fields: &[&str], out: &mut Out, hist: &mut Hist) {
+    let hexes = |t: &str| -> Vec<u32> { t.split(',').filter_map(|w| u32::from_str_radix(w, 16).ok()).collect() };
+    let is_nan = |x: u32| (x & 0x7fff_ffff) > 0x7f80_0000;
+    match kind {
+        "cmp" if fields.len() == 2 => {
+            let a = u32::from_str_radix(fields[0], 16).unwrap_or(0);
+            let bs = hexes(fields[1]);
+            let mut obs = Vec::new();
+            let mut bad = None;
+            for b in &bs {
+                let r: Vec<bool> = [MBin::Lt, MBin::Le, MBin::Gt, MBin::Ge, MBin::Eq, MBin::Ne].iter().map(|m| fcmp(*m, a, *b)).collect();
+                let (lt, le, gt, ge, eq, ne) = (r[0], r[1], r[2], r[3], r[4], r[5]);
+                let ok = if is_nan(a) || is_nan(*b) {
+                    hist.add("prim:cmp-unordered");
+                    !lt && !le && !gt && !ge && !eq && ne
+                } else {
+                    hist.add("prim:cmp-ordered");
+                    (lt as u8 + eq as u8 + gt as u8) == 1 && le == (lt || eq) && ge == (gt || eq) && ne == !eq
+                };
+                if !ok && bad.is_none() {
+                    bad = Some(format!("comparison laws fail for {:08x} {:08x}", a, b));
+                }
+                obs.push(r.iter().map(|x| if *x { '1' } else { '0' }).collect::<String>());
+            }
+            let oracle = bad.map(|b| format!("FAIL:{}", b)).unwrap_or_else(|| "ok".to_string());
+            out.case(&format!("C01.prim\tcmp\t{}\t{}", fields[0], fields[1]), &obs.join(" "), &oracle);
+        }
+        "conv" if fields.len() == 1 => {
+            let xs = hexes(fields[0]);
+            let mut obs = Vec::new();
+            let mut bad = None;
+            for x in &xs {
+                hist.add("prim:conv");
+                let (a, b, c, d, e) = (i2f(*x), u2f(*x), f2i(*x), f2u(*x), f2b(*x));
+                let small = (*x as i32).unsigned_abs() <= (1 << 24);
+                let ok = (!is_nan(*x) || (c == 0 && d == 0 && e))
+                    && (!small || f2i(a) == *x)
+                    && (*x > (1 << 24) || f2u(b) == *x)
+                    && (is_nan(*x) || *x & 0x8000_0000 == 0 || d == 0)
+                    && e == ((*x & 0x7fff_ffff) != 0)
+                    && !is_nan(a) && !is_nan(b);
+                if !ok && bad.is_none() {
+                    bad = Some(format!("conversion laws fail for {:08x}", x));
+                }
+                obs.push(format!("{:08x},{:08x},{:08x},{:08x},{}", a, b, c, d, e as u8));
+            }
+            let oracle = bad.map(|b| format!("FAIL:{}", b)).unwrap_or_else(|| "ok".to_string());
+            out.case(&format!("C01.prim\tconv\t{}", fields[0]), &obs.join(" "), &oracle);
+        }
+        _ => {}
+    }
+}
+
+fn prim_stream(rng: &mut Rng, out: &mut Out, hist: &mut Hist) {
+    let mut fl: Vec<u32> = FLOAT_EDGES.to_vec();
+    // neighbours of the conversion limits and of the rounding boundaries, then random bits
+    fl.extend([0x4eff_fffe, 0x4f00_0001, 0xceff_ffff, 0x4f7f_fffe, 0x4f80_0001, 0x3f7f_ffff, 0xbf7f_ffff, 0x3f80_0001, 0x4b00_0000, 0x4b7f_ffff, 0x4a80_0001, 0x7f80_0002, 0xff80_0001]);
+    for _ in 0..24 {
+        fl.push(rng.next() as u32);
+    }
+    let bs = fl.iter().map(|b| format!("{:08x}", b)).collect::<Vec<_>>().join(",");
+    for a in &fl {
+        run_prim("cmp", &[&format!("{:08x}", a), &bs], out, hist);
+    }
+    let mut xs: Vec<u32> = fl.clone();
+    xs.extend(INT_EDGES);
+    // integers around every rounding boundary of int -> float: 2^p + {0, 1, half, half +- 1} for p = 24..31
+    for p in 24..32u32 {
+        let base = 1u32 << p;
+        let half = 1u32 << (p - 24);
+        for d in [0, 1, half, half.wrapping_sub(1), half + 1, half * 2, half * 3, half * 3 - 1, half * 3 + 1] {
+            xs.push(base.wrapping_add(d));
+            xs.push(base.wrapping_add(d).wrapping_neg());
+            xs.push(base.wrapping_sub(d));
+        }
+    }
+    for _ in 0..64 {
+        xs.push(rng.next() as u32);
+    }
+    for chunk in xs.chunks(40) {
+        run_prim("conv", &[&chunk.iter().map(|b| format!("{:08x}", b)).collect::<Vec<_>>().join(",")], out, hist);
+    }
+}
+
 pub fn run(args: &Args, out: &mut Out) {
     let mut hist = Hist::default();
     if args.extra.first().map(|s| s.as_str()) == Some("vgen") {
@@ -496,6 +614,10 @@ pub fn run(args: &Args, out: &mut Out) {
                 }
                 continue;
             }
+            if f.len() >= 3 && f[0] == "C01.prim" {
+                run_prim(f[1], &f[2..], out, &mut hist);
+                continue;
+            }
             if f.len() < 4 || f[0] != "C01.fn" {
                 continue;
             }
@@ -513,6 +635,8 @@ pub fn run(args: &Args, out: &mut Out) {
     }
     let n = args.n.unwrap_or(if args.thorough() { 6000 } else { 300 });
     let nvec = if args.thorough() { 8 } else { 8 };
+    // the concrete primitives themselves, harness against model (every tier, first)
+    prim_stream(&mut Rng::new(args.seed ^ 0x9121), out, &mut hist);
     let mut rng = Rng::new(args.seed);
     for k in 0..n {
         let mut prng = rng.fork();
@@ -545,6 +669,32 @@ pub fn run(args: &Args, out: &mut Out) {
             }
             if out.oracle_fail > before {
                 hist.add(&format!("vshape-oracle-fail:{}", shape));
+            }
+        }
+    }
+    // statement shapes under comparisons of float vector components, vectors with NaN / zeros / infinities (every tier)
+    {
+        let grid = vrun::parse_vvectors(&vstshapes::grid_text()).unwrap_or_default();
+        for (shape, src) in vstshapes::stream() {
+            let before = out.oracle_fail;
+            let mut arng = Rng::new(1);
+            let mut h2 = Hist::default();
+            if let Err(pn) = guard(|| vrun::vrun_program(&src, Some(("f1", &grid)), grid.len(), &mut arng, out, &mut h2)) {
+                hist.add("harness-panic");
+                out.case(&format!("C01.vfn\t{}\tf1\t{}\t-\t-", one_line(&src), vstshapes::grid_text()), "harness-panic", &format!("SKIP:harness panic {}", pn));
+            }
+            hist.add("vstshape");
+            if h2.0.contains_key("v:skip:front-end") {
+                hist.add(&format!("vstshape-rejected-by-front-end:{}", shape));
+            }
+            if h2.0.keys().any(|k| k.starts_with("v:text-unsupported") || k.starts_with("v:unsupported")) {
+                hist.add(&format!("vstshape-unsupported:{}", shape));
+            }
+            if h2.0.contains_key("v:vector:none") {
+                hist.add(&format!("vstshape-some-vector-undefined:{}", shape));
+            }
+            if out.oracle_fail > before {
+                hist.add(&format!("vstshape-oracle-fail:{}", shape));
             }
         }
     }
@@ -590,6 +740,39 @@ pub fn run(args: &Args, out: &mut Out) {
         }
         if out.oracle_fail > before {
             hist.add(&format!("shape-oracle-fail:{}", shape));
+        }
+    }
+    // exhaustive statement shapes under float comparisons, on a grid with NaN / zeros / infinities (every tier)
+    for (shape, src, grid_text) in stshapes::stream() {
+        nshapes += 1;
+        let grid = parse_vectors(&grid_text).unwrap_or_default();
+        let before = out.oracle_fail;
+        let mut arng = Rng::new(1);
+        let mut h2 = Hist::default();
+        if let Err(pn) = guard(|| run_program(&src, Some(("f1", &grid)), grid.len(), &mut arng, out, &mut h2)) {
+            hist.add("harness-panic");
+            out.case(&format!("C01.fn\t{}\tf1\t{}\t-\t-", one_line(&src), grid_text), "harness-panic", &format!("SKIP:harness panic {}", pn));
+        }
+        let kind = shape.split(|c| c == '[' || c == ':').next().unwrap_or("").to_string();
+        hist.add(&format!("stshape:{}", kind));
+        if h2.0.contains_key("skip:front-end") {
+            hist.add(&format!("stshape-rejected-by-front-end:{}", shape));
+        }
+        if h2.0.contains_key("fn:unsupported") {
+            hist.add(&format!("stshape-unsupported:{}", shape));
+        }
+        if h2.0.keys().any(|k| k.starts_with("text-not-reparsable") || k.starts_with("text-unsupported")) {
+            hist.add(&format!("stshape-text-not-evaluated:{}", shape));
+        }
+        if out.oracle_fail > before {
+            hist.add(&format!("stshape-oracle-fail:{}", shape));
+        }
+        for (k, v) in &h2.0 {
+            if k.starts_with("stmt-attr:") || k == "fn:with-statement-attributes" || k.starts_with("vector:") {
+                for _ in 0..*v {
+                    hist.add(&format!("st:{}", k));
+                }
+            }
         }
     }
     out.stat(&format!("{{\"programs\":{},\"shapes\":{},\"hist\":{}}}", n, nshapes, hist.json()));
